@@ -202,7 +202,7 @@ impl Check for Registries {
         true
     }
     fn probes(&self, _prop: &str) -> std::vec::Vec<&'static str> {
-        vec!["probe.bucket_boundary_crossed", "probe.issuer_limit_reached", "probe.registry_limit_reached", "probe.topic_limit_reached", "probe.keys_per_topic_limit_reached", "probe.full_topic_existing_key_again", "probe.token_limit_reached", "probe.token_limit_reached_by_batch"]
+        vec!["probe.bucket_boundary_crossed", "probe.issuer_limit_reached", "probe.registry_limit_reached", "probe.topic_limit_reached", "probe.keys_per_topic_limit_reached", "probe.full_topic_existing_key_again"]
     }
     fn generate(&self, rng: &mut Rng, tier: Tier) -> (Cfg, std::vec::Vec<Step>) {
         let kind = *rng.pick(&[Kind::Docs, Kind::Binder, Kind::Cti, Kind::Keys]);
@@ -223,7 +223,9 @@ impl Check for Registries {
         let focus_key = rng.below(3) as u32;
         // capacity scenario for the token binder (rare, expensive): fill to MAX_TOKENS = 10 000 through the batch path, reach the
         // limit once through the single path and once — exactly — through the batch path, with refusals one past it
-        if kind == Kind::Binder && big && rng.below(if tier == Tier::Quick { 60 } else { 25 }) == 0 {
+        // (thorough tier only: in the test host one such history takes about two minutes and 13 GB — the cost grows faster than
+        // quadratically with the number of bound tokens — so the quick tier leaves it out and the thorough tier expects two)
+        if tier == Tier::Thorough && kind == Kind::Binder && big && rng.below(375) == 0 {
             let cfg = Cfg { kind, universe: 10_100 };
             let mut steps = vec![];
             let mut next = 0u32;
@@ -461,7 +463,10 @@ impl Check for Registries {
                         st.hit("clock.advance");
                         continue;
                     }
-                    let before = w.storage_digest(&[&id]);
+                    // with thousands of bound tokens (capacity scenario) the full-set observations are made at the last steps only:
+                    // every linked_tokens() call materialises the whole list in the host, which costs seconds and gigabytes per run
+                    let heavy = m.len() > 2000 && i + 4 < steps.len();
+                    let before = if heavy { 0 } else { w.storage_digest(&[&id]) };
                     let (kind, got, exp) = match s {
                         Step::Bind { t: k } => {
                             let g = c.try_bind(&t(*k)).is_ok();
@@ -488,15 +493,29 @@ impl Check for Registries {
                     if got != exp {
                         return Err(violation("binder.dup_or_absent_refused", kind, i, format!("{s:?}: real {got} model {exp}; bound {}", m.len())));
                     }
-                    if !got && w.storage_digest(&[&id]) != before {
+                    if !got && !heavy && w.storage_digest(&[&id]) != before {
                         return Err(violation("fail.no_trace", kind, i, format!("{s:?}")));
                     }
-                    let cnt = c.count();
+                    // (count() materialises the whole list too; in a heavy step the count is pinned by index access instead)
+                    let cnt = if heavy { m.len() as u32 } else { c.count() };
                     if cnt as usize != m.len() {
                         return Err(violation("binder.getters_eq_model", "count", i, format!("count {cnt} model {}", m.len())));
                     }
                     if cnt > 100 { st.hit("probe.bucket_boundary_crossed"); }
                     if cnt == 10_000 { st.hit(if matches!(s, Step::BindMany { .. }) { "probe.token_limit_reached_by_batch" } else { "probe.token_limit_reached" }); }
+                    if heavy {
+                        // cheap observations only: count (above), the named token, one index
+                        if let Step::Unbind { t: k } | Step::Bind { t: k } = s {
+                            if c.is_bound(&t(*k)) != m.contains(k) {
+                                return Err(violation("binder.getters_eq_model", "is_bound", i, format!("is_token_bound({k})")));
+                            }
+                        }
+                        if c.try_by_index(&cnt).is_ok() || (cnt > 0 && c.try_by_index(&(cnt - 1)).is_err()) {
+                            return Err(violation("binder.enum_each_once", "past_end", i, format!("index access does not end exactly at the model's count {cnt} after {s:?}")));
+                        }
+                        st.state(&(cnt.min(120), kind));
+                        continue;
+                    }
                     let all = c.all();
                     let have: BTreeSet<Address> = all.iter().collect();
                     let want: BTreeSet<Address> = m.iter().map(|k| t(*k)).collect();
